@@ -12,7 +12,8 @@ SHARDS = {'quick': 1, 'thorough': 1}
 RULE = ('filters = atoms, lists of <=2 atoms/operator objects, operator objects (op in =,<,<=,>,>=,!= x value atom) '
         'evaluated exhaustively against every atom and "absent"; plus Hypothesis-generated multi-key filters with '
         'nested lists, unicode patterns, larger numbers and JSON-shaped metadata; plus listing through the in-memory '
-        'and S3 cassettes over stores with heterogeneous metadata. Oracle: reference model written from the '
+        'and S3 cassettes over stores with heterogeneous metadata, alone and with a second lookup (other filter) open on '
+        'the same cassette. Oracle: reference model written from the '
         'statement (pbt/refmatch.py); result must be a bool, equal to the reference where the statement speaks, '
         'identical on a second call, and no call may raise. Non-trivial: filter is a list or operator object, or '
         'the recorded value is absent, or filter and recorded value have different types. Distinct = distinct '
@@ -69,7 +70,7 @@ def case_desc(filter_by, metadata):
 
 def replay(ctx, case):
     if isinstance(case, (list, tuple)):
-        if len(case) == 2 and isinstance(case[0], list):
+        if len(case) in (2, 3) and isinstance(case[0], list):
             check_listing(ctx, case)
         else:
             check_pair(ctx, case[0], case[1])
@@ -133,7 +134,8 @@ def random_part(ctx):
 def check_listing(ctx, case):
     """Integration clause: one odd recording cannot abort a lookup (in-memory and S3 cassettes)."""
     from pbt import zoo
-    mds, flt = case
+    mds, flt = case[0], case[1]
+    flt2 = case[2] if len(case) > 2 else None
     with zoo.Zoo(kinds=('memory', 's3')) as z:
         for cas in z.cassettes:
             ids = []
@@ -156,10 +158,28 @@ def check_listing(ctx, case):
             except Exception as e:  # pylint: disable=broad-except
                 raise Violation('listing on %s raised %s: %s (filter=%r, metadata=%r)' % (
                     z.name(cas), type(e).__name__, e, flt, mds), 'listing-totality')
+            if got:
+                ctx.count('listing_lookups_with_matches')
             if not unspecified and sorted(got) != sorted(want):
                 raise Violation('listing on %s returned %r, expected %r (filter=%r, metadata=%r)' % (
                     z.name(cas), got, want, flt, mds), 'listing-meaning')
-    ctx.case({'listing': {'metadata': mds, 'filter': flt}}, len(mds) >= 2 and bool(flt), classes=('listing',))
+            if flt2 is not None:
+                # the answer for (filter, metadata) is the same when another lookup is open on the same cassette
+                try:
+                    alone2 = list(cas.iter_recording_ids('Cat', metadata=dict(flt2)))
+                    it = iter(cas.iter_recording_ids('Cat', metadata=dict(flt)))
+                    first = [x for _, x in zip(range(1), it)]
+                    other = list(cas.iter_recording_ids('Cat', metadata=dict(flt2)))
+                    rest = first + list(it)
+                except Exception as e:  # pylint: disable=broad-except
+                    raise Violation('interleaved listing on %s raised %s: %s (filters=%r / %r, metadata=%r)' % (
+                        z.name(cas), type(e).__name__, e, flt, flt2, mds), 'listing-totality')
+                if sorted(rest) != sorted(got) or sorted(other) != sorted(alone2):
+                    raise Violation('listing on %s with filter %r gave %r alone and %r while a lookup with filter %r was '
+                                    'open (that one: %r alone, %r interleaved); metadata=%r' % (
+                                        z.name(cas), flt, got, rest, flt2, alone2, other, mds), 'listing-deterministic')
+    ctx.case({'listing': {'metadata': mds, 'filter': flt, 'filter2': flt2}}, len(mds) >= 2 and bool(flt),
+             classes=('listing', 'listing:interleaved' if flt2 is not None else 'listing:single'))
 
 
 def listing_part(ctx):
@@ -169,9 +189,26 @@ def listing_part(ctx):
     stored_values = st.recursive(json_scalars, lambda c: st.one_of(
         st.lists(c, max_size=3), st.dictionaries(st.sampled_from(['k', 'operator', 'value']), c, max_size=3)),
                                  max_leaves=6).filter(V.faithful)
-    strat = st.tuples(st.lists(st.dictionaries(st.sampled_from(KEYS), stored_values, max_size=3), min_size=1, max_size=4),
-                      st.dictionaries(st.sampled_from(KEYS), filters, min_size=1, max_size=2))
-    return hyp_search(ctx, strat, lambda c: check_listing(ctx, c), ctx.pick(150, 3000), label='listing')
+    @st.composite
+    def strat(draw):
+        mds = draw(st.lists(st.dictionaries(st.sampled_from(KEYS), stored_values, max_size=3), min_size=1, max_size=4))
+        present = [(k, v) for md in mds for k, v in md.items()]
+
+        def a_filter():
+            # half of the filter entries are taken from what is stored, so that lookups match some recordings
+            out = {}
+            for _ in range(draw(st.integers(1, 2))):
+                if present and draw(st.booleans()):
+                    k, v = draw(st.sampled_from(present))
+                    out[k] = draw(st.sampled_from([v, [v], [v, None], {'operator': '=', 'value': v},
+                                                   {'operator': '!=', 'value': v}]))
+                else:
+                    out[draw(st.sampled_from(KEYS))] = draw(filters)
+            return out
+        return (mds, a_filter(), a_filter() if draw(st.booleans()) else None)
+
+    strat = strat()
+    return hyp_search(ctx, strat, lambda c: check_listing(ctx, c), ctx.pick(200, 3000), label='listing')
 
 
 def run(ctx):
